@@ -20,14 +20,14 @@ from report import AnalysisBroken
 from astutil import where
 
 CHAR, END = 'CHAR', 'END'
+DEBUG = None
+END_VALUE = None      # the decoder's END value, from the decoder rules (R20.5c)
 
 
 # ---- linear forms: dict symbol -> coefficient, '' -> constant
 def lin_parse(s, atoms):
     """parse a rendered expression made of + and - over atoms and integers; atoms maps atom text -> linear form"""
     s = s.strip()
-    toks = re.findall(r"\(|\)|\+|-|\*|[A-Za-z_][\w@#'>.\-]*?(?=[\s()+*]|$)|\d+", s)
-    # the lazy identifier regex above is fragile around '-' ; use a hand tokenizer instead
     toks = []; i = 0
     while i < len(s):
         ch = s[i]
@@ -111,18 +111,32 @@ def segments(paths):
     return list(first.values()), list(gen.values())
 
 
-def run(ck, tu, rid='R20.6'):
-    rule = ck.rule(rid, 'echo invariant of sanitize_utf8 on a clean line (well-formed UTF-8, no control characters): every iteration copies text[frontier, next offset) to sanitized at the same offset, no escape and no truncation exit is reachable, every exit leaves sanitized == text with the terminator at LEN', 8)
+def run(ck, tu, model, rid='R20.6', end_value=None):
+    global END_VALUE
+    END_VALUE = end_value
     site = 'bin/main.c:sanitize_utf8'
-    eng, paths = cfgpaths.summarise(tu, 'sanitize_utf8')
+    eng, paths = cfgpaths.summarise(tu, 'sanitize_utf8', open_paths=True)
     params = tu.params('sanitize_utf8')
     if len(params) != 2: raise AnalysisBroken(f'sanitize_utf8 takes {params}')
     TEXT, LENP = params
     first, gen = segments(paths)
+    # the echo buffer of each path (static array, or the pointer/capacity pair established before the loop)
+    def with_model(segs):
+        out = []
+        for ev, how, p in segs:
+            bm = model.on_path(p)
+            if bm['buf'] is None: continue            # allocation failed: outside the clause (assumption recorded)
+            out.append((ev, how, p, bm))
+        return out
+    if any(model.on_path(p)['problems'] for ev, how, p in first + gen):
+        ck.undecided('echo clause (R20.6) not evaluated on this tree: the echo buffer does not satisfy its model (see R20.1)'); return
+    first = with_model(first); gen = with_model(gen)
+    rule = ck.rule(rid, 'echo invariant of sanitize_utf8 on a clean line (well-formed UTF-8, no control characters): every iteration copies text[frontier, next offset) to sanitized at the same offset, no escape and no truncation exit is reachable, every exit leaves sanitized == text with the terminator at LEN', 8)
     if not first or not gen: raise AnalysisBroken('sanitize_utf8: loop iterations not found in the path summaries')
     # the variables the invariant speaks about: found by role, not by name
     #   pos  = the variable added to `sanitized` in the copies; c2/p2 = loop-carried result of the second next/at_byte
     roles = find_roles(first + gen)
+    walk_segment.p2_names = set(); walk_segment.c2_names = set()
     nscen = 0
     for head in ('start', 'pending'):
         segs = first if head == 'start' else gen
@@ -140,7 +154,7 @@ def run(ck, tu, rid='R20.6'):
         rule.instance(f'{site}:done:END', ok=False, wclass=cls, what=f'{sc.name()}: {what}' + (f' ({at})' if at else ''))
     if not res['violations']: rule.instance(site, ok=True, detail={'scenario': sc.name(), 'ends': res['ends']})
     # utf8_decode_init(text, length) before the first character is read
-    init_ok = all(any(e[0] == 'call' and e[1] == 'utf8_decode_init' and tuple(e[2][:2]) == (TEXT, LENP) for e in ev) for ev, how, p in first)
+    init_ok = all(any(e[0] == 'call' and e[1] == 'utf8_decode_init' and tuple(e[2][:2]) == (TEXT, LENP) for e in ev) for ev, how, p, bm in first)
     rule.instance(f'{site}:init', ok=init_ok, wclass='decoder-init', what=f'the decoder is not initialised with ({TEXT}, {LENP}) before the loop')
     ck.sample({'echo_scenarios': nscen + 1, 'first_iteration_segments': len(first), 'generic_iteration_segments': len(gen), 'roles': roles})
     ck.assume('echo clause: the decoder behaves as R20.5 establishes (characters in order, the_byte = offset of the character returned last, END for ever at the end); allocation of the echo buffer succeeds')
@@ -149,10 +163,10 @@ def run(ck, tu, rid='R20.6'):
 def find_roles(segs):
     """names of the output position, and of the loop-carried (character, offset) pair, from the shape of the code"""
     pos = None; heads = set(); tag = None
-    for ev, how, p in segs:
+    for ev, how, p, bm in segs:
         for e in ev:
             if e[0] == 'call' and e[1] == 'memcpy':
-                m = re.fullmatch(r"\(sanitized \+ (\w+)@(L\d+)'*\)", e[2][0])
+                m = re.fullmatch(r"\(" + re.escape(bm['buf']) + r" \+ (\w+)@(L\d+)'*\)", e[2][0])
                 if m: pos = m.group(1); tag = m.group(2)
             for s in ([e[1]] if e[0] == 'cond' else []):
                 for m in re.finditer(r"(\w+)@(L\d+)'*", s): heads.add(m.group(1))
@@ -164,8 +178,8 @@ def evaluate(sc, segs, roles, TEXT, LENP):
     """find the segment(s) the scenario takes and check them"""
     out = {'violations': [], 'ends': []}
     taken = []
-    for ev, how, p in segs:
-        r = walk_segment(sc, ev, how, roles, TEXT, LENP)
+    for ev, how, p, bm in segs:
+        r = walk_segment(sc, ev, how, roles, TEXT, LENP, bm)
         if r is None: continue                        # a branch of this segment contradicts the scenario
         taken.append(r)
     if not taken:
@@ -178,9 +192,9 @@ def evaluate(sc, segs, roles, TEXT, LENP):
 class Undecidable(Exception): pass
 
 
-def walk_segment(sc, ev, how, roles, TEXT, LENP):
-    tag = roles['tag']; POS = roles['pos']
-    LEN = sym('LEN')
+def walk_segment(sc, ev, how, roles, TEXT, LENP, bm):
+    tag = roles['tag']; POS = roles['pos']; BUF = bm['buf']
+    LEN = sym('LEN') if not (sc.head == 'start' and sc.outcomes == (END,)) else {}     # END on the first read: the line is empty
     # --- scenario facts
     if sc.head == 'start':
         frontier = {}; head_vals = {}; prev_byte = {}            # the_byte after init is 0
@@ -192,6 +206,7 @@ def walk_segment(sc, ev, how, roles, TEXT, LENP):
     else:
         frontier = dict(LEN); prev_byte = sym('PL'); b1 = None; head_kind = 'done'
     atoms = {LENP: LEN}
+    if isinstance(bm['cap'], str) and bm['cap'].endswith('@static'): atoms[bm['cap']] = sym('CAP')      # old capacity: >= the requested size (growth test failed)
     kinds = {}                # call symbol of utf8_decode_next -> CHAR / END
     nexts = 0; last_byte = prev_byte
     violations = []
@@ -253,27 +268,27 @@ def walk_segment(sc, ev, how, roles, TEXT, LENP):
         if k is not None and re.fullmatch(r'-?\d+', R):
             n = int(R)
             # a clean character: > 0x1f, != 0x7f, any code point above; END is negative
-            if k == END: val = {'<': -1 < n, '<=': -1 <= n, '>': -1 > n, '>=': -1 >= n, '==': False, '!=': True}
-            else:
-                if op in ('<', '<='):
-                    if n <= 32: return False
-                    raise Undecidable(cond)
-                if op in ('>', '>='):
-                    if n <= 31: return True
-                    raise Undecidable(cond)
-                if op == '==':
-                    if n < 32 or n == 127: return False
-                    raise Undecidable(cond)
-                if n < 32 or n == 127: return True
-                raise Undecidable(cond)
-            if k == END and op in ('==', '!='):
-                if n >= 0: return val[op]
-                raise Undecidable(cond)
-            return val[op]
+            if k == END:
+                # END is one negative value (R20.5c gives it); ERROR cannot occur on a clean line
+                ev_ = END_VALUE
+                if ev_ is None:
+                    if n >= 0 and op in ('<', '<=', '>', '>='): ev_ = -1          # only the sign matters
+                    elif n >= 0: return op == '!='
+                    else: raise Undecidable(cond)
+                return {'<': ev_ < n, '<=': ev_ <= n, '>': ev_ > n, '>=': ev_ >= n, '==': ev_ == n, '!=': ev_ != n}[op]
+            # a clean character: any code point in 0x20..0x7e or 0x80..0x10ffff - each read is a free choice among them
+            pts = {0x20, 0x7e, 0x80, 0x10ffff} | {x for x in (n - 1, n, n + 1) if 0x20 <= x <= 0x7e or 0x80 <= x <= 0x10ffff}
+            f = {'<': lambda c: c < n, '<=': lambda c: c <= n, '>': lambda c: c > n, '>=': lambda c: c >= n, '==': lambda c: c == n, '!=': lambda c: c != n}[op]
+            vals = {f(c) for c in pts}
+            return vals.pop() if len(vals) == 1 else 'either'
         # offsets and the buffer
         try: a = lin(L); b = lin(R)
         except Undecidable: raise
-        return compare(a, op, b, sc, cond)
+        return compare(a, op, b, sc, cond, need)
+    need = None
+    in_prefix = (sc.head == 'start') and any(x[0] == 'call' and x[1] == 'utf8_decode_init' for x in ev)
+    if isinstance(bm['cap'], str):
+        tests = [x for x in [bm['cap']] ]
     frontier_now = dict(frontier) if sc.head != 'start' else {}
     pos_val = dict(frontier_now)
     b_syms = {}
@@ -290,8 +305,9 @@ def walk_segment(sc, ev, how, roles, TEXT, LENP):
             # END leaves the_byte alone
         elif e[0] == 'call' and e[1] == 'utf8_decode_at_byte':
             atoms[e[3]] = dict(last_byte)
-        elif e[0] == 'call' and e[1] == 'utf8_decode_init': pass
+        elif e[0] == 'call' and e[1] == 'utf8_decode_init': in_prefix = False
         elif e[0] == 'cond':
+            if in_prefix: continue          # before the decoder is initialised: growth test and allocation result, owned by the buffer model
             try: t = decide(e[1])
             except Undecidable as u:
                 if 'realloc' in e[1] or 'malloc' in e[1]:
@@ -305,12 +321,16 @@ def walk_segment(sc, ev, how, roles, TEXT, LENP):
                     violations.append(('truncation', f'the truncation guard {e[1]} can be true on a clean line that does not fit the buffer: the echo is cut short', where(e[-1]) if isinstance(e[-1], dict) else None))
                     return {'violations': violations, 'end': 'truncated'}
                 continue
-            if t != e[2]: return None
+            if t == 'either': continue              # some clean characters take this branch, others the opposite one: both are scenarios
+            if t != e[2]:
+                if DEBUG is not None: DEBUG[(e[1], e[2], t)] += 1
+                return None
         elif e[0] == 'call' and e[1] == 'sprintf':
             violations.append(('escape', f'an escape is formatted ({", ".join(map(str, e[2]))}) although the line has no control character', where(e[4])))
+            return {'violations': violations, 'end': 'escape'}
         elif e[0] == 'call' and e[1] == 'memcpy':
             dst, src, n = e[2][0], e[2][1], e[2][2]
-            md = re.fullmatch(r'\(sanitized \+ (.+)\)', dst); ms = re.fullmatch(r'\(' + re.escape(TEXT) + r' \+ (.+)\)', src)
+            md = re.fullmatch(r'\(' + re.escape(BUF) + r' \+ (.+)\)', dst); ms = re.fullmatch(r'\(' + re.escape(TEXT) + r' \+ (.+)\)', src)
             if not md: violations.append(('copy', f'copy into {dst}', where(e[4]))); continue
             if not ms:
                 violations.append(('escape', f'memcpy({dst}, {src}, {n}) copies something other than the line itself', where(e[4]))); continue
@@ -325,7 +345,7 @@ def walk_segment(sc, ev, how, roles, TEXT, LENP):
                 try: pos_val = lin(e[2])
                 except Undecidable as u: raise AnalysisBroken(f'sanitize_utf8: {POS} := {e[2]} is outside the echo rule\'s vocabulary')
                 atoms[POS] = pos_val
-            m = re.fullmatch(r'sanitized\[(.+)\]', name)
+            m = re.fullmatch(re.escape(BUF) + r'\[(.+)\]', name)
             if m and e[2] in ("'\\x00'", '0'):
                 try: nul_at = lin(m.group(1))
                 except Undecidable: nul_at = 'unknown'
@@ -364,6 +384,9 @@ def walk_segment(sc, ev, how, roles, TEXT, LENP):
 walk_segment.p2_names = set(); walk_segment.c2_names = set()
 
 
+def _undec(cond): raise Undecidable(cond)
+
+
 def _alloc_success(e):
     return e[2] if not e[1].startswith('(') else ((' == NULL' in e[1] or ' == 0' in e[1]) != e[2])
 
@@ -374,7 +397,7 @@ def _add(a, b):
     return {k: c for k, c in out.items() if c != 0}
 
 
-def compare(a, op, b, sc, cond):
+def compare(a, op, b, sc, cond, need=None):
     """a op b over the chain  0 <= (P2 <) B1 < B2 < LEN  (start: B1 == 0; pending: 0 < P2 < B1) ; 'maybe-truncate' when
     one side is the buffer capacity and cannot be shown to exceed the other"""
     d = _add(a, {k: -c for k, c in b.items()})          # a - b
@@ -402,10 +425,12 @@ def compare(a, op, b, sc, cond):
             cap = rhs
             k = cap.get('LEN', 0); c0 = cap.get('', 0)
             if set(cap) <= {'LEN', ''} and k >= 1 and c0 >= 1: return op in ('<', '<=')      # capacity > LEN >= offset: fits
+            if set(cap) == {'CAP'} and cap['CAP'] == 1: return op in ('<', '<=')             # the old buffer: at least the requested size (checked by the buffer model: NEED = a*length + c, a >= 1, c >= 1)
             if set(cap) <= {''}: return 'maybe-truncate'                                      # fixed capacity: a longer clean line exists
     raise Undecidable(cond)
 
 
 def _is_offset(v, chain):
-    """v is a sum that telescopes to one chain symbol (or 0): the only values the invariant lets a position take"""
-    return (not v) or (len(v) == 1 and list(v.values()) == [1] and list(v)[0] in chain)
+    """v <= LEN for sure: a sum that telescopes to one chain symbol (or 0), possibly minus a constant"""
+    w = {k: c for k, c in v.items() if k}
+    return v.get('', 0) <= 0 and ((not w) or (len(w) == 1 and list(w.values()) == [1] and list(w)[0] in chain))
